@@ -205,6 +205,9 @@ pub enum FnModel {
     NeedsTuple,
     /// fails with FunctionIdentifierNotFound(<that other name>), as a function does that evaluates something itself
     FailNotFound(&'static str),
+    /// Int k in 0..=80: evaluates `deep(k - 1) + 1` through a string entry point in a context of its own (k nested
+    /// evaluations on one thread) and so returns k; anything else: CustomMessage
+    Deep,
 }
 
 pub fn apply_fn_model(name: &str, m: &FnModel, arg: &Value) -> Result<Value, EvalexprError> {
@@ -248,6 +251,21 @@ pub fn apply_fn_model(name: &str, m: &FnModel, arg: &Value) -> Result<Value, Eva
             other => Err(EvalexprError::expected_tuple(other.clone())),
         },
         FnModel::FailNotFound(inner) => Err(EvalexprError::FunctionIdentifierNotFound(inner.to_string())),
+        FnModel::Deep => match arg {
+            Value::Int(0) => Ok(Value::Int(0)),
+            Value::Int(k) if (1..=80).contains(k) => {
+                let mut c = HashMapContext::<DefaultNumericTypes>::new();
+                c.set_function("deep".into(), Function::new(|v: &Value| apply_fn_model("deep", &FnModel::Deep, v)))
+                    .expect("HashMapContext::set_function cannot fail");
+                let prev_eval = evalexpr::verif::set_eval_sink(None);
+                let prev_parse = evalexpr::verif::set_parser_sink(None);
+                let r = evalexpr::eval_int_with_context(&format!("deep({}) + 1", k - 1), &c);
+                evalexpr::verif::set_eval_sink(prev_eval);
+                evalexpr::verif::set_parser_sink(prev_parse);
+                r.map(Value::Int)
+            },
+            _ => Err(EvalexprError::CustomMessage("deep: not an int in 0..=80".to_string())),
+        },
     }
 }
 
